@@ -297,3 +297,15 @@ func W(kv ...any) map[string]any {
 	}
 	return m
 }
+
+// Exact returns a private copy of b whose capacity equals its length, so that
+// any reslice beyond len(b) by the code under test panics instead of silently
+// reading whatever follows in a larger allocation. nil stays nil.
+func Exact(b []byte) []byte {
+	if b == nil {
+		return nil
+	}
+	c := make([]byte, len(b))
+	copy(c, b)
+	return c[:len(b):len(b)]
+}
